@@ -769,7 +769,7 @@ func detectExeType(src []byte, codeStart, codeEnd *int) byte {
 		}
 
 		// ARM
-		if (i & 3) != 0 {
+		if (i&3) != 0 || i+4 > len(src) {
 			continue
 		}
 
@@ -845,7 +845,7 @@ func parseExeHeader(src []byte, magic uint, arch, codeStart, codeEnd *int) bool 
 					for i := 0; i < nbEntries; i++ {
 						startEntry := posSection + i*szEntry
 
-						if startEntry < 0 || startEntry+0x28 >= count {
+						if startEntry < 0 || startEntry >= count-0x28 {
 							return false
 						}
 
@@ -870,7 +870,7 @@ func parseExeHeader(src []byte, magic uint, arch, codeStart, codeEnd *int) bool 
 					for i := 0; i < nbEntries; i++ {
 						startEntry := posSection + i*szEntry
 
-						if startEntry < 0 || startEntry+0x18 >= count {
+						if startEntry < 0 || startEntry >= count-0x18 {
 							return false
 						}
 
@@ -900,7 +900,7 @@ func parseExeHeader(src []byte, magic uint, arch, codeStart, codeEnd *int) bool 
 					for i := 0; i < nbEntries; i++ {
 						startEntry := posSection + i*szEntry
 
-						if startEntry < 0 || startEntry+0x28 >= count {
+						if startEntry < 0 || startEntry >= count-0x28 {
 							return false
 						}
 
@@ -925,7 +925,7 @@ func parseExeHeader(src []byte, magic uint, arch, codeStart, codeEnd *int) bool 
 					for i := 0; i < nbEntries; i++ {
 						startEntry := posSection + i*szEntry
 
-						if startEntry < 0 || startEntry+0x18 >= count {
+						if startEntry < 0 || startEntry >= count-0x18 {
 							return false
 						}
 
@@ -985,7 +985,7 @@ func parseExeHeader(src []byte, magic uint, arch, codeStart, codeEnd *int) bool 
 				}
 
 				if ldCmd == _EXE_MAC_LC_SEGMENT || ldCmd == _EXE_MAC_LC_SEGMENT64 {
-					if pos+14 >= count {
+					if pos+16 > count {
 						return false
 					}
 
@@ -994,7 +994,7 @@ func parseExeHeader(src []byte, magic uint, arch, codeStart, codeEnd *int) bool 
 					if nameSegment == 0x5F5F54455854 {
 						posSection := pos + szSegHdr
 
-						if posSection+0x34 >= count {
+						if posSection+0x38 > count {
 							return false
 						}
 
